@@ -145,6 +145,29 @@ def from_xyz(ctx, prog, rule):
         if len(elems) == 6 and all(e[0] == "agg" and e[1][0] == "adt" and e[1][1].endswith("RecordValue") for e in elems):
             point = elems
             point_block = bi
+    # the point handed to add_point, however the vector was assembled (vec![..], array.into(), a.into_iter().chain(b).collect())
+    def vec_elements(t, depth=0):
+        t = strip(t)
+        while t[0] in ("cast", "ref", "partial"):
+            t = strip(t[2] if t[0] == "cast" else t[1])
+        if depth > 8:
+            return None
+        if t[0] == "agg" and t[1][0] == "array":
+            return [strip(e) for e in t[2]]
+        if t[0] == "call" and t[2]:
+            last = t[1].rsplit("::", 1)[-1].split("<")[0]
+            if last in ("into_vec", "from", "to_vec", "into", "box_new", "new", "into_iter", "iter", "collect", "from_iter", "copied", "cloned"):
+                return vec_elements(t[2][0], depth + 1)
+            if last == "chain" and len(t[2]) == 2:
+                a, b = vec_elements(t[2][0], depth + 1), vec_elements(t[2][1], depth + 1)
+                return None if a is None or b is None else a + b
+        return None
+    for bi, t in m.calls(lambda c, t: c.endswith("PointCloudWriter::<'a, T>::add_point")):
+        ve = vec_elements(R.operand(t["args"][1]))
+        if ve is not None and len(ve) == 6 and all(e[0] == "agg" and e[1][0] == "adt" and e[1][1].endswith("RecordValue") for e in ve):
+            point = ve
+            if point_block is None:
+                point_block = bi
     wantp = ["CARTESIAN_X_F32", "CARTESIAN_Y_F32", "CARTESIAN_Z_F32", "COLOR_RED_U8", "COLOR_GREEN_U8", "COLOR_BLUE_U8"]
     okp = proto is not None and all(w in p for w, p in zip(wantp, proto))
     ctx.ob(rule, "prototype/from-xyz", okp, "prototype constants in order: %s" % proto)
